@@ -85,6 +85,9 @@ def run(ck, fb):
     r01d(ck, fb)
     r01e(ck, fb)
     r01f(ck, fb)
+    from rules.c02 import r02h, r02i
+    r02i(ck, fb, 'R01g')
+    r02h(ck, fb, 'R01h')
 
 
 def writers(ck, fb):
